@@ -103,7 +103,7 @@ impl<const D: usize> SvdBasis<D> {
             let vectors = points
                 .iter()
                 .zip(w)
-                .map(|(p, w)| p - center * *w)
+                .map(|(p, w)| (p - center) * *w)
                 .collect::<Vec<_>>();
             svd_from_vectors(&vectors, Some(center))
         } else {
